@@ -13,6 +13,7 @@ import (
 	"strings"
 
 	"github.com/onflow/cadence"
+	"github.com/onflow/cadence/common"
 	"github.com/onflow/cadence/errors"
 
 	"cvh/lib"
@@ -220,6 +221,22 @@ func resCoq(o lib.Outcome, cls string) string {
 	return "(Err " + cls + ")"
 }
 
+// a mutant may loop forever (e.g. a dropped loop-counter increment): every run is metered;
+// a run that hits the limit is not a case (the model would report OutOfFuel)
+type limitGauge struct{ used, max uint64 }
+
+type limitError struct{}
+
+func (limitError) Error() string { return "computation limit of the harness exceeded" }
+
+func (g *limitGauge) MeterComputation(u common.ComputationUsage) error {
+	g.used += u.Intensity
+	if g.used > g.max {
+		return limitError{}
+	}
+	return nil
+}
+
 // ---------------------------------------------------------------- the leg
 
 type fragCase struct {
@@ -296,10 +313,19 @@ func RunFragment(rng *lib.Rng, tier string, dir string, sum *lib.Summary) {
 			a := genArg(ar, t)
 			args[i], argsCoq[i], argsTxt[i] = a.v, a.coq, a.v.String()
 		}
+		host.CompGauge = &limitGauge{max: 20000}
 		oi := host.RunScript(src, args, false)
+		host.CompGauge = &limitGauge{max: 20000}
 		ov := host.RunScript(src, args, true)
 		ci, cv := fragClass(oi), fragClass(ov)
 		sum.Evaluations += 2
+		limited := func(o lib.Outcome) bool {
+			return o.Err != nil && strings.Contains(o.Err.Error(), "computation limit of the harness exceeded")
+		}
+		if limited(oi) || limited(ov) {
+			sum.Count("frag:skipped:computation-limit")
+			return
+		}
 		isRej := func(c string) bool { return c == "CheckerError" || c == "ParseError" }
 		if isRej(ci) != isRej(cv) {
 			sum.Fail("frag:verdict-differs-between-engines", "checker verdict differs between engines: "+ci+" / "+cv,
